@@ -1525,7 +1525,7 @@ def pretty_float(value, ctx):
     elif math.isnan(value):
         return pretty_call_alt(ctx, constructor, args=('nan', ))
 
-    doc = annotate(Token.NUMBER_FLOAT, repr(value))
+    doc = annotate(Token.NUMBER_FLOAT, float.__repr__(value))
     if constructor is float:
         return doc
 
@@ -1538,7 +1538,7 @@ def pretty_int(value, ctx):
     if ctx.depth_left == 0:
         return pretty_call_alt(ctx, constructor, args=(..., ))
 
-    doc = annotate(Token.NUMBER_INT, repr(value))
+    doc = annotate(Token.NUMBER_INT, int.__repr__(value))
     if constructor is int:
         return doc
 
